@@ -75,6 +75,8 @@ impl FeoxStore {
             }
         };
 
+        #[cfg(feoxdb_verif)]
+        crate::verif::sched_point("update_before_enqueue", 0, 0);
         if !self.memory_only {
             if self.enable_caching {
                 if let Some(ref cache) = self.cache {
@@ -154,6 +156,8 @@ impl FeoxStore {
             }
         };
 
+        #[cfg(feoxdb_verif)]
+        crate::verif::sched_point("update_before_enqueue", 0, 0);
         if !self.memory_only {
             if self.enable_caching {
                 if let Some(ref cache) = self.cache {
@@ -249,6 +253,8 @@ impl FeoxStore {
             scc::hash_map::Entry::Vacant(_) => return Ok(false),
         };
 
+        #[cfg(feoxdb_verif)]
+        crate::verif::sched_point("expire_before_enqueue", 0, 0);
         let record = retired;
         self.remove_cached(key, &record);
         if let Some(write_buffer) = self.write_buffer.as_ref() {
